@@ -715,3 +715,24 @@ def rule_num(ctx, R):
 
 
 RULES.append(("C01.NUM", "the rational operations the commands are defined by (add, mul, flip, minus, floor for character output, is_pos, is_nan) have their defining shape (shared with C06.ARITH)", rule_num))
+
+
+def rule_init(ctx, R):
+    """the initial state of a program: no stacks, no commands, no labels, stack 3 selected, no jump source"""
+    fb = ctx.fb
+    want = {
+        "core::state::UnOptState::new": "UnOptState::UnOptState{HashMap::new(),VEC,HashMap::new(),K3,Option::None{}}",
+        "core::state::OptState::new": "OptState::OptState{vec::from_elem(VEC,SIZE),VEC,HashMap::new(),K3,Option::None{}}",
+    }
+    for n, w in want.items():
+        b = fb.bodies.get(n)
+        if not R.anchor(b is not None, n, n):
+            continue
+        R.analyse(n)
+        roles = Roles(b, fb, param_roles={1: "SIZE"})
+        cfg = normal_cfg(b)
+        got = sorted({roles.of_origin(roles.org.of_place({"l": 0, "proj": []}, r_, "t")) for r_ in cfg.returns})
+        R.check(got == [w], "init:%s" % n.rsplit("::", 2)[-2], "a new state has empty stacks (as many as asked for, for the vector-backed state), an empty command log, an empty label table, stack 3 selected and no jump source: %s" % got, b.span)
+
+
+RULES.append(("C01.INIT", "the initial state: empty stacks, command log and label table; stack 3 selected; no pending jump source", rule_init))
